@@ -1,6 +1,7 @@
 import RedisVerif.Model.GrammarTable
 import RedisVerif.Model.LuaConv
 import RedisVerif.Lemmas.Grammar
+import RedisVerif.Lemmas.GrammarOpts
 
 /-!
 # C16 — a command means the same via every entry path (both parsers, Lua redis.call)
@@ -477,6 +478,241 @@ theorem lua_roundtrip_counterexample : ¬ C16_lua_roundtrip := by
 /-- exception 3 (known finding): a Lua float is answered as its text, not as an integer -/
 theorem lua_number_becomes_string : luaToResp (.num 3) = .bulk (some (s2b "3")) := by
   simp [luaToResp, intText]; decide
+
+
+/-! ## 6. option order (SET, EXPIRE, PEXPIRE, GETEX) -/
+
+theorem parse_of_find {name : Bytes} {s : Spec} (h : findEntry table (kw name) = some (.cmd s))
+    (args : List Bytes) : parseCmd (name :: args) = s.run args := by
+  simp only [parseCmd, parseWith, h]
+
+/-- lift a body result into a parse result -/
+def liftB : BRes → Res
+  | .ok c => .ok c
+  | .error e => .error (.body e)
+
+def setSpec : Spec := customSpec "SET" (.atLeast 2) (reqAtLeast "SET" 2) CB.set
+def expireSpec : Spec := customSpec "EXPIRE" (.atLeast 2) (reqAtLeast "EXPIRE" 2) (CB.expire (s2b "Expire"))
+def pexpireSpec : Spec := customSpec "PEXPIRE" (.atLeast 2) (reqAtLeast "PEXPIRE" 2) (CB.expire (s2b "PExpire"))
+def getexSpec : Spec := customSpec "GETEX" (.atLeast 1) (wrongArgs "getex") CB.getex
+
+theorem find_set : findEntry table (s2b "SET") = some (.cmd setSpec) := by rfl
+theorem find_expire : findEntry table (s2b "EXPIRE") = some (.cmd expireSpec) := by rfl
+theorem find_pexpire : findEntry table (s2b "PEXPIRE") = some (.cmd pexpireSpec) := by rfl
+theorem find_getex : findEntry table (s2b "GETEX") = some (.cmd getexSpec) := by rfl
+
+theorem parse_set {name : Bytes} (hn : kw name = s2b "SET") (k v : Bytes) (opts : List Bytes) :
+    parseCmd (name :: k :: v :: opts) = liftB (Bodies.set (k :: v :: opts)) := by
+  rw [parse_of_find (by rw [hn]; exact find_set)]
+  simp only [setSpec, customSpec, Spec.run, Arity.ok, List.length_cons, Body.run, CB.set, liftB]
+  have : decide (2 ≤ opts.length + 1 + 1) = true := by simp
+  simp only [this, if_true]
+  cases Bodies.set (k :: v :: opts) <;> rfl
+
+theorem parse_expire {name : Bytes} (hn : kw name = s2b "EXPIRE") (k n : Bytes) (opts : List Bytes) :
+    parseCmd (name :: k :: n :: opts) = liftB (Bodies.expire (s2b "Expire") (k :: n :: opts)) := by
+  rw [parse_of_find (by rw [hn]; exact find_expire)]
+  simp only [expireSpec, customSpec, Spec.run, Arity.ok, List.length_cons, Body.run, CB.expire, liftB]
+  have : decide (2 ≤ opts.length + 1 + 1) = true := by simp
+  simp only [this, if_true]
+  cases Bodies.expire (s2b "Expire") (k :: n :: opts) <;> rfl
+
+theorem parse_pexpire {name : Bytes} (hn : kw name = s2b "PEXPIRE") (k n : Bytes) (opts : List Bytes) :
+    parseCmd (name :: k :: n :: opts) = liftB (Bodies.expire (s2b "PExpire") (k :: n :: opts)) := by
+  rw [parse_of_find (by rw [hn]; exact find_pexpire)]
+  simp only [pexpireSpec, customSpec, Spec.run, Arity.ok, List.length_cons, Body.run, CB.expire, liftB]
+  have : decide (2 ≤ opts.length + 1 + 1) = true := by simp
+  simp only [this, if_true]
+  cases Bodies.expire (s2b "PExpire") (k :: n :: opts) <;> rfl
+
+theorem parse_getex {name : Bytes} (hn : kw name = s2b "GETEX") (k : Bytes) (opts : List Bytes) :
+    parseCmd (name :: k :: opts) = liftB (Bodies.getex (k :: opts)) := by
+  rw [parse_of_find (by rw [hn]; exact find_getex)]
+  simp only [getexSpec, customSpec, Spec.run, Arity.ok, List.length_cons, Body.run, CB.getex, liftB]
+  have : decide (1 ≤ opts.length + 1) = true := by simp
+  simp only [this, if_true]
+  cases Bodies.getex (k :: opts) <;> rfl
+
+/-- full statement: the order of the options of SET does not matter -/
+def C16_option_order_irrelevant : Prop :=
+  ∀ (k v : Bytes) (bs bs' : List Block), bs.Perm bs' → WellFormed Bodies.setOpts bs →
+    parseCmd (s2b "SET" :: k :: v :: flat bs) = parseCmd (s2b "SET" :: k :: v :: flat bs')
+
+/-- proved form: … when no option occurs twice (any letter case of name and keywords) -/
+theorem option_order_irrelevant_set_partial {name : Bytes} (hn : kw name = s2b "SET") (k v : Bytes)
+    {bs bs' : List Block} (hp : bs.Perm bs') (hwf : WellFormed Bodies.setOpts bs)
+    (hnr : NoRepeat Bodies.setOpts bs) :
+    parseCmd (name :: k :: v :: flat bs) = parseCmd (name :: k :: v :: flat bs') := by
+  obtain ⟨h1, h2, hh, ho⟩ := scan_perm Bodies.setOpts (fun _ => some (.lit .syntax)) hp hwf hnr
+  rw [parse_set hn, parse_set hn]
+  simp only [Bodies.set, h1, h2, bind, Except.bind, hh, ho]
+
+theorem option_order_irrelevant_expire_partial {name : Bytes} (hn : kw name = s2b "EXPIRE") (k n : Bytes)
+    {bs bs' : List Block} (hp : bs.Perm bs') (hwf : WellFormed Bodies.expireOpts bs)
+    (hnr : NoRepeat Bodies.expireOpts bs) :
+    parseCmd (name :: k :: n :: flat bs) = parseCmd (name :: k :: n :: flat bs') := by
+  obtain ⟨h1, h2, hh, _⟩ := scan_perm Bodies.expireOpts (fun w => some (.fmt .unsupportedOption w)) hp hwf hnr
+  rw [parse_expire hn, parse_expire hn]
+  simp only [Bodies.expire, h1, h2, bind, Except.bind, hh]
+
+theorem option_order_irrelevant_pexpire_partial {name : Bytes} (hn : kw name = s2b "PEXPIRE") (k n : Bytes)
+    {bs bs' : List Block} (hp : bs.Perm bs') (hwf : WellFormed Bodies.expireOpts bs)
+    (hnr : NoRepeat Bodies.expireOpts bs) :
+    parseCmd (name :: k :: n :: flat bs) = parseCmd (name :: k :: n :: flat bs') := by
+  obtain ⟨h1, h2, hh, _⟩ := scan_perm Bodies.expireOpts (fun w => some (.fmt .unsupportedOption w)) hp hwf hnr
+  rw [parse_pexpire hn, parse_pexpire hn]
+  simp only [Bodies.expire, h1, h2, bind, Except.bind, hh]
+
+theorem option_order_irrelevant_getex_partial {name : Bytes} (hn : kw name = s2b "GETEX") (k : Bytes)
+    {bs bs' : List Block} (hp : bs.Perm bs') (hwf : WellFormed Bodies.getexOpts bs)
+    (hnr : NoRepeat Bodies.getexOpts bs) :
+    parseCmd (name :: k :: flat bs) = parseCmd (name :: k :: flat bs') := by
+  obtain ⟨h1, h2, hh, ho⟩ := scan_perm Bodies.getexOpts (fun _ => some (.lit .syntax)) hp hwf hnr
+  rw [parse_getex hn, parse_getex hn]
+  simp only [Bodies.getex, h1, h2, bind, Except.bind, hh, ho]
+
+/-- non-vacuity: `EX 10 nx get` are three well-formed blocks without repetition, 6 orders -/
+example : WellFormed Bodies.setOpts [⟨s2b "EX", [s2b "10"]⟩, ⟨s2b "nx", []⟩, ⟨s2b "GET", []⟩] ∧
+    NoRepeat Bodies.setOpts [⟨s2b "EX", [s2b "10"]⟩, ⟨s2b "nx", []⟩, ⟨s2b "GET", []⟩] ∧
+    kw (s2b "set") = s2b "SET" := by decide
+
+/-- with a repeated valued option the last occurrence wins (as in Redis): the order matters -/
+theorem option_order_counterexample : ¬ C16_option_order_irrelevant := by
+  intro h
+  have := h (s2b "k") (s2b "v") [⟨s2b "EX", [s2b "1"]⟩, ⟨s2b "EX", [s2b "2"]⟩]
+    [⟨s2b "EX", [s2b "2"]⟩, ⟨s2b "EX", [s2b "1"]⟩] (List.Perm.swap _ _ _) (by decide)
+  exact absurd this (by decide)
+
+/-! ## 7. conflicting options -/
+
+theorem blockSeen_of_kw (tbl : List OptSpec) (b : Block) (hs : (blockSeen tbl b).isSome = true)
+    (i : Nat) (o : OptSpec) (hf : findOpt tbl (kw b.word) 0 = some (i, o)) :
+    ∃ ts, blockSeen tbl b = some (i, ts) := by
+  cases hb : blockSeen tbl b with
+  | none => rw [hb] at hs; simp at hs
+  | some e =>
+    refine ⟨e.2, ?_⟩
+    have : e.1 = i := by
+      unfold blockSeen at hb
+      rw [hf] at hb
+      simp only at hb
+      split at hb
+      · simp at hb
+      · split at hb
+        · simp at hb; rw [← hb]
+        · split at hb <;> simp at hb; rw [← hb]
+        · split at hb <;> simp at hb; rw [← hb]
+        · simp at hb
+    rw [← this]
+
+/-- a well-formed block list that contains option word `w` (any case) has recorded index `i` -/
+theorem has_of_word (tbl : List OptSpec) {bs : List Block} (hwf : WellFormed tbl bs) {w : Bytes} {i : Nat}
+    {o : OptSpec} (hf : findOpt tbl w 0 = some (i, o)) (hex : ∃ b ∈ bs, kw b.word = w) :
+    (seenOf tbl bs).has i = true := by
+  obtain ⟨b, hb, hw⟩ := hex
+  obtain ⟨ts, hts⟩ := blockSeen_of_kw tbl b (hwf b hb) i o (by rw [hw]; exact hf)
+  exact has_of_block tbl hb hts
+
+/-- full statement (as Redis): besides the pairs below, `SET … EX … PX …` and `ZADD … NX XX` /
+    `GT LT` / `NX GT` are conflicts -/
+def C16_conflicts_as_redis : Prop :=
+  (∀ k v, ∃ e, parseCmd [s2b "SET", k, v, s2b "EX", s2b "1", s2b "PX", s2b "2"] = .error e) ∧
+  (∀ k m, ∃ e, parseCmd [s2b "ZADD", k, s2b "NX", s2b "XX", s2b "1", m] = .error e)
+
+/-- SET: NX and XX together are rejected, wherever they stand, whatever else is there -/
+theorem conflicting_options_rejected_set_nx_xx {name : Bytes} (hn : kw name = s2b "SET") (k v : Bytes)
+    {bs : List Block} (hwf : WellFormed Bodies.setOpts bs)
+    (hnx : ∃ b ∈ bs, kw b.word = s2b "NX") (hxx : ∃ b ∈ bs, kw b.word = s2b "XX") :
+    parseCmd (name :: k :: v :: flat bs) = .error (.body (.lit .nxxx)) := by
+  have h0 := has_of_word Bodies.setOpts hwf (w := s2b "NX") (i := 0) (by rfl) hnx
+  have h1 := has_of_word Bodies.setOpts hwf (w := s2b "XX") (i := 1) (by rfl) hxx
+  rw [parse_set hn]
+  simp only [Bodies.set, scan_blocks _ _ bs hwf, bind, Except.bind, h0, h1, Bool.and_self, if_true, liftB]
+
+/-- SET: KEEPTTL with EX / PX / EXAT / PXAT is rejected -/
+theorem conflicting_options_rejected_set_keepttl {name : Bytes} (hn : kw name = s2b "SET") (k v : Bytes)
+    {bs : List Block} (hwf : WellFormed Bodies.setOpts bs)
+    (hk : ∃ b ∈ bs, kw b.word = s2b "KEEPTTL")
+    (he : (∃ b ∈ bs, kw b.word = s2b "EX") ∨ (∃ b ∈ bs, kw b.word = s2b "PX") ∨
+          (∃ b ∈ bs, kw b.word = s2b "EXAT") ∨ (∃ b ∈ bs, kw b.word = s2b "PXAT")) :
+    ∃ e, parseCmd (name :: k :: v :: flat bs) = .error e := by
+  have h7 := has_of_word Bodies.setOpts hwf (w := s2b "KEEPTTL") (i := 7) (by rfl) hk
+  have hany : ((seenOf Bodies.setOpts bs).has 3 || (seenOf Bodies.setOpts bs).has 4 ||
+      (seenOf Bodies.setOpts bs).has 5 || (seenOf Bodies.setOpts bs).has 6) = true := by
+    rcases he with h | h | h | h
+    · simp [has_of_word Bodies.setOpts hwf (w := s2b "EX") (i := 3) (by rfl) h]
+    · simp [has_of_word Bodies.setOpts hwf (w := s2b "PX") (i := 4) (by rfl) h]
+    · simp [has_of_word Bodies.setOpts hwf (w := s2b "EXAT") (i := 5) (by rfl) h]
+    · simp [has_of_word Bodies.setOpts hwf (w := s2b "PXAT") (i := 6) (by rfl) h]
+  rw [parse_set hn]
+  simp only [Bodies.set, scan_blocks _ _ bs hwf, bind, Except.bind, h7, hany, Bool.and_self, if_true]
+  split <;> exact ⟨_, rfl⟩
+
+/-- EXPIRE: NX with XX, GT or LT is rejected -/
+theorem conflicting_options_rejected_expire_nx {name : Bytes} (hn : kw name = s2b "EXPIRE") (k n : Bytes)
+    (i : Int) (hi : parseI64 n = some i)
+    {bs : List Block} (hwf : WellFormed Bodies.expireOpts bs)
+    (hnx : ∃ b ∈ bs, kw b.word = s2b "NX")
+    (ho : (∃ b ∈ bs, kw b.word = s2b "XX") ∨ (∃ b ∈ bs, kw b.word = s2b "GT") ∨ (∃ b ∈ bs, kw b.word = s2b "LT")) :
+    parseCmd (name :: k :: n :: flat bs) = .error (.body (.lit .expireNx)) := by
+  have h0 := has_of_word Bodies.expireOpts hwf (w := s2b "NX") (i := 0) (by rfl) hnx
+  have hany : ((seenOf Bodies.expireOpts bs).has 1 || (seenOf Bodies.expireOpts bs).has 2 ||
+      (seenOf Bodies.expireOpts bs).has 3) = true := by
+    rcases ho with h | h | h
+    · simp [has_of_word Bodies.expireOpts hwf (w := s2b "XX") (i := 1) (by rfl) h]
+    · simp [has_of_word Bodies.expireOpts hwf (w := s2b "GT") (i := 2) (by rfl) h]
+    · simp [has_of_word Bodies.expireOpts hwf (w := s2b "LT") (i := 3) (by rfl) h]
+  rw [parse_expire hn]
+  simp only [Bodies.expire, aInt, Arg.extract, hi, scan_blocks _ _ bs hwf, bind, Except.bind, h0, hany,
+    Bool.and_self, if_true, liftB]
+
+/-- EXPIRE: GT and LT together are rejected -/
+theorem conflicting_options_rejected_expire_gt_lt {name : Bytes} (hn : kw name = s2b "EXPIRE") (k n : Bytes)
+    (i : Int) (hi : parseI64 n = some i)
+    {bs : List Block} (hwf : WellFormed Bodies.expireOpts bs)
+    (hgt : ∃ b ∈ bs, kw b.word = s2b "GT") (hlt : ∃ b ∈ bs, kw b.word = s2b "LT") :
+    ∃ e, parseCmd (name :: k :: n :: flat bs) = .error e := by
+  have h2 := has_of_word Bodies.expireOpts hwf (w := s2b "GT") (i := 2) (by rfl) hgt
+  have h3 := has_of_word Bodies.expireOpts hwf (w := s2b "LT") (i := 3) (by rfl) hlt
+  rw [parse_expire hn]
+  simp only [Bodies.expire, aInt, Arg.extract, hi, scan_blocks _ _ bs hwf, bind, Except.bind, h2, h3,
+    Bool.and_self, if_true]
+  split <;> exact ⟨_, rfl⟩
+
+/-- GETEX: PERSIST with an expiry option is rejected -/
+theorem conflicting_options_rejected_getex {name : Bytes} (hn : kw name = s2b "GETEX") (k : Bytes)
+    {bs : List Block} (hwf : WellFormed Bodies.getexOpts bs)
+    (hp : ∃ b ∈ bs, kw b.word = s2b "PERSIST") (hex : ∃ b ∈ bs, kw b.word = s2b "EX") :
+    parseCmd (name :: k :: flat bs) = .error (.body (.lit .syntax)) := by
+  have h4 := has_of_word Bodies.getexOpts hwf (w := s2b "PERSIST") (i := 4) (by rfl) hp
+  have h0 := has_of_word Bodies.getexOpts hwf (w := s2b "EX") (i := 0) (by rfl) hex
+  have hc : [(seenOf Bodies.getexOpts bs).has 0, (seenOf Bodies.getexOpts bs).has 1, (seenOf Bodies.getexOpts bs).has 2,
+      (seenOf Bodies.getexOpts bs).has 3, (seenOf Bodies.getexOpts bs).has 4].count true > 1 := by
+    rw [h0, h4]
+    cases (seenOf Bodies.getexOpts bs).has 1 <;> cases (seenOf Bodies.getexOpts bs).has 2 <;>
+      cases (seenOf Bodies.getexOpts bs).has 3 <;> decide
+  rw [parse_getex hn]
+  simp only [Bodies.getex, scan_blocks _ _ bs hwf, bind, Except.bind, hc, if_true, liftB]
+
+/-- non-vacuity: `XX get nX` / `keepttl PX 5` are well-formed and contain the conflicting words -/
+example : WellFormed Bodies.setOpts [⟨s2b "XX", []⟩, ⟨s2b "get", []⟩, ⟨s2b "nX", []⟩] ∧
+    parseCmd [s2b "set", s2b "k", s2b "v", s2b "XX", s2b "get", s2b "nX"] = .error (.body (.lit .nxxx)) := by decide
+example : parseCmd [s2b "SET", s2b "k", s2b "v", s2b "keepttl", s2b "PX", s2b "5"] = .error (.body (.lit .syntax)) := by decide
+example : parseCmd [s2b "EXPIRE", s2b "k", s2b "5", s2b "GT", s2b "nx"] = .error (.body (.lit .expireNx)) := by decide
+
+/-- what Redis rejects and this grammar accepts (all three paths agree; C01's business):
+    SET with EX and PX, ZADD with NX and XX -/
+theorem set_ex_px_not_rejected :
+    (parseCmd [s2b "SET", s2b "k", s2b "v", s2b "EX", s2b "1", s2b "PX", s2b "2"]).isOk = true := by decide
+theorem zadd_nx_xx_not_rejected :
+    (parseCmd [s2b "ZADD", s2b "k", s2b "NX", s2b "XX", s2b "1", s2b "m"]).isOk = true := by decide
+
+theorem conflicts_as_redis_counterexample : ¬ C16_conflicts_as_redis := by
+  intro h
+  obtain ⟨e, he⟩ := h.1 (s2b "k") (s2b "v")
+  have := set_ex_px_not_rejected
+  rw [he] at this
+  simp [Except.isOk, Except.toBool] at this
 
 end C16
 end RedisVerif
